@@ -83,6 +83,13 @@ impl Mempool {
         }
     }
     pub async fn add_golden_ticket(&mut self, golden_ticket: Transaction) {
+        if golden_ticket.data.len() != 97 {
+            warn!(
+                "golden ticket transaction with a payload of {} bytes ignored",
+                golden_ticket.data.len()
+            );
+            return;
+        }
         let gt = GoldenTicket::deserialize_from_net(&golden_ticket.data);
         debug!(
             "adding golden ticket : {:?} target : {:?} public_key : {:?}",
